@@ -160,6 +160,8 @@ func (p *Prog) exitKind(x *TX, ret *ssa.Return) string {
 	return "maybe"
 }
 
+var nonNilActive = map[*ssa.Function]bool{}
+
 // nonNilErr: is error value v provably non-nil when instruction at executes?
 func (p *Prog) nonNilErr(x *TX, v ssa.Value, at ssa.Instruction, depth int) bool {
 	if depth > 8 {
@@ -190,6 +192,19 @@ func (p *Prog) nonNilErr(x *TX, v ssa.Value, at ssa.Instruction, depth int) bool
 		callee := v.Call.StaticCallee()
 		if callee == nil {
 			return false
+		}
+		if p.newHelper(callee) && isErrorType(v.Type()) && !nonNilActive[callee] {
+			// a new helper that only ever returns non-nil errors (`func errNotFound() error`)
+			nonNilActive[callee] = true
+			defer delete(nonNilActive, callee)
+			hx := p.tx(callee)
+			rets := allReturns(callee)
+			for _, r := range rets {
+				if p.exitKind(hx, r) != "error" {
+					return false
+				}
+			}
+			return len(rets) > 0
 		}
 		switch funcName(callee) {
 		case "sdkerrors.Wrap", "sdkerrors.Wrapf":
